@@ -4,6 +4,7 @@ interleaving at bytecode granularity inside cacheutils.
 Deterministic pre-emption scheduler (sched.py) + recorded client-side histories +
 linearizability checker against the sequential reference cache (cachemodel.py).
 """
+import sys
 import time
 
 from checks import common
@@ -19,7 +20,11 @@ RULE = ('random programs (2-3 threads x 1-4 cache operations, 2-4 keys, max_size
         'with/without on_miss, cache pre-filled to capacity or not) run under a deterministic scheduler '
         'that can pre-empt at every bytecode boundary inside cacheutils: systematic single pre-emption '
         '(every event x every other thread x every starting thread), sampled/systematic double '
-        'pre-emptions, random 1-3-switch schedules, plus free-running stress threads; every recorded '
+        'pre-emptions, random 1-3-switch schedules, plus free-running stress threads; directed programs (each locked '
+        'method against an inserting thread, same-key pairs, on_miss lookups, brand-new caches) with all / sampled double '
+        'pre-emptions; one update() of 1500 pairs pre-empted well inside, with and without lock hand-off; two caches '
+        'compared with / updated from each other in both directions; the same exploration inside a forked child process '
+        'on caches built before the fork; every recorded '
         'history (+ final contents and probed eviction order) is checked for linearizability against the '
         'sequential reference cache; distinct = distinct (program, starting thread, switch list) '
         'interleavings whose switch actually happened inside a cacheutils function')
@@ -28,6 +33,8 @@ ASSUMPTIONS = [
     'methods and harness code are atomic (true under the GIL)',
     'exploration is bounded: <= 3 threads, <= 4 ops each, <= 3 pre-emptions per run',
     'hit/miss/soft-miss counters are not observables of this property',
+    'for two caches updated from each other only deadlock / exception / capacity / usability / provenance of the final '
+    'values are decided (each cache is one cache several threads operate on; no joint sequential model is assumed)',
     'operations inherited from dict without a lock (len, in, iteration) are checked separately; a '
     'history that is non-linearizable only because of them is classified unlocked-inherited-read',
 ]
@@ -62,6 +69,10 @@ def to_model_op(op):
             pairs = list(dict(pairs).items())
         return ('update', pairs)
     if name == 'eq':
+        return ('eq', [tuple(p) for p in op[1]])
+    if name == 'update-big':
+        return ('update', [('b%d' % i, i) for i in range(op[1])])
+    if name in ('eq-other', 'other-eq'):
         return ('eq', [tuple(p) for p in op[1]])
     if name == 'copy':
         return ('items',)
@@ -101,6 +112,17 @@ def make_do_op(cache):
                 c2 |= pairs
                 return None
             return cache.update(pairs)
+        if n == 'update-big':
+            # thousands of pairs from a generator (bulk loaders); one operation, so atomic like any other
+            return cache.update((('b%d' % i, i) for i in range(op[1])))
+        if n == 'eq-other':
+            return cache == cache._verif_other
+        if n == 'other-eq':
+            return cache._verif_other == cache
+        if n == 'update-from-other':
+            return cache.update(cache._verif_other)
+        if n == 'other-update-from-self':
+            return cache._verif_other.update(cache)
         if n == 'clear':
             return cache.clear()
         if n == 'eq':
@@ -146,6 +168,11 @@ def build(case):
         kw['on_miss'] = on_miss_fn
     cache = cls(max_size=case['max_size'], **kw)
     holder.append(cache)
+    if case.get('other') is not None:
+        other = cls(max_size=max(4, len(case['other'])))
+        for k, v in case['other']:
+            other[k] = v
+        cache._verif_other = other
     for k, v in case.get('prefill', []):
         cache[k] = v
     model = Model(case['max_size'], case['cls'] == 'LRU', case.get('on_miss') or False)
@@ -187,8 +214,41 @@ def check_history(case, model, st0, hist, cache, stats=None):
     return 'non-linearizable', 'no sequential order explains the results / final state', None, nodes
 
 
-def run_one(case, first, switches, record_tids=False, free=False):
-    cache, model, st0 = build(case)
+CROSS = 'two-caches:update-from-each-other'
+
+
+def check_cross(case, hist, cache):
+    """Two caches updated from each other by two threads.  Each cache is 'one LRI/LRU several threads operate on':
+    nothing may hang (the scheduler reports a deadlock before we get here), raise, exceed max_size or leave either
+    cache unusable; every key ends up with a value one of the two caches held."""
+    other = cache._verif_other
+    for h in hist:
+        if h['res'] == ('exc', 'RuntimeError'):
+            # "dictionary changed size during iteration": update() walks the other cache's keys without its lock
+            return CROSS, 'a.update(b) || b.update(a): %r -> %r' % (h['op'], h['res'])
+        if h['res'] != ('ok', None):
+            return 'exception:cross-update', 'a.update(b) || b.update(a): %r -> %r' % (h['op'], h['res'])
+    allowed = {}
+    for k, v in list(case.get('prefill', [])) + list(case['other']):
+        allowed.setdefault(k, set()).add(v)
+    for name, c, ms in (('a', cache, case['max_size']), ('b', other, other.max_size)):
+        contents = dict(dict.items(c))
+        if len(contents) > ms:
+            return 'capacity-exceeded', 'cache %s holds %d > %d' % (name, len(contents), ms)
+        for k, v in contents.items():
+            if v not in allowed.get(k, ()):
+                return 'non-linearizable', 'cache %s maps %r to %r, which neither cache ever held' % (name, k, v)
+        try:
+            probe_order(c, ms)
+        except common.Violation as v:
+            return 'unusable-afterwards', 'cache %s after a.update(b) || b.update(a): %s' % (name, v)
+        except Exception as e:
+            return 'unusable-afterwards', 'cache %s after a.update(b) || b.update(a): probing raised %r' % (name, e)
+    return None, ''
+
+
+def run_one(case, first, switches, record_tids=False, free=False, handoff=False, prebuilt=None):
+    cache, model, st0 = prebuilt if prebuilt is not None else build(case)
     do_op = make_do_op(cache)
     mon = monitor()
     if free:
@@ -196,7 +256,7 @@ def run_one(case, first, switches, record_tids=False, free=False):
         sc = None
     else:
         sc = S.Sched(len(case['programs']), first, switches,
-                     event_budget=case.get('budget', 50000))
+                     event_budget=case.get('budget', 50000), handoff=handoff)
         sc.record_tids = record_tids
         if S.HOLDER_STATS.get('locks_created', 0) == 0:
             # the cache created no lock through cacheutils.RLock: the shim cannot see lock waits
@@ -210,9 +270,9 @@ def jsonable_hist(hist):
              'res': common.jsonable(h['res'])} for h in hist]
 
 
-def judge(case, first, switches, stats, free=False, record_tids=False):
+def judge(case, first, switches, stats, free=False, record_tids=False, handoff=False, prebuilt=None):
     """Run one schedule and decide it.  Returns (kind or None, detail, sched)."""
-    cache, model, st0, hist, status, sc = run_one(case, first, switches, record_tids, free)
+    cache, model, st0, hist, status, sc = run_one(case, first, switches, record_tids, free, handoff, prebuilt)
     if status == 'no-lock-attribute':
         stats.count('inconclusive:no-lock-attribute')
         return None, '', None
@@ -230,12 +290,17 @@ def judge(case, first, switches, stats, free=False, record_tids=False):
         stats.count('lock_contention_events', sc.contention)
         stats.count('lock_acquisitions', sc.acquisitions)
         stats.count('instruction_events', sc.events)
+    if status == 'deadlock' and case.get('cross'):
+        return CROSS, 'a.update(b) || b.update(a): each thread holds its own cache\'s lock and waits for the other\'s', sc
     if status == 'deadlock':
         return 'deadlock', 'all remaining threads blocked on the cache lock', sc
     if status == 'event-budget':
         return 'non-termination', 'more than %d bytecode events' % sc.budget, sc
     try:
-        kind, detail, lin, nodes = check_history(case, model, st0, hist, cache, stats)
+        if case.get('cross'):
+            kind, detail, lin, nodes = check_cross(case, hist, cache) + (None, 0)
+        else:
+            kind, detail, lin, nodes = check_history(case, model, st0, hist, cache, stats)
     except S.Inconclusive:
         stats.count('inconclusive:lin-search-cap')
         return None, '', sc
@@ -433,9 +498,117 @@ def explore_all_pairs(ctx, case, label):
                     report(ctx, case, first, sw, kind, detail)
 
 
-def report(ctx, case, first, switches, kind, detail):
+def report(ctx, case, first, switches, kind, detail, **extra):
     wit = {'case': case, 'first': first, 'switches': [list(s) for s in switches]}
+    wit.update(extra)
     ctx.stats.violation(kind, detail, wit)
+
+
+def explore_big_update(ctx, cls, label):
+    """One update() of thousands of pairs against a reader of its first and last key: pre-empted at a few points
+    well inside the update, with and without lock hand-off (the reader gets the lock the moment it is free)."""
+    st = ctx.stats
+    n = 1500
+    case = {'cls': cls, 'max_size': 2 * n, 'on_miss': False, 'prefill': [['z', 0]], 'budget': 40000000,
+            'programs': [[['update-big', n]], [['get', 'b0', None], ['get', 'b%d' % (n - 1), None], ['len']]]}
+    kind, detail, sc = judge(case, 0, [], st)
+    st.evaluations += 1
+    if sc is None:
+        return
+    if kind is not None:
+        report(ctx, case, 0, [], kind, detail)
+        return
+    N = sc.events
+    st.peak('max_events_per_run', N)
+    for frac in ((0.3, 0.72, 0.97) if not ctx.thorough else (0.05, 0.2, 0.3, 0.45, 0.6, 0.72, 0.8, 0.9, 0.97, 0.995)):
+        for handoff in (True, False):
+            if ctx.out_of_time():
+                return
+            sw = [(max(1, int(N * frac)), 1)]
+            kind, detail, sc2 = judge(case, 0, sw, st, handoff=handoff)
+            st.evaluations += 1
+            st.count('big_update_schedules')
+            if sc2 is not None and sc2.made:
+                st.see((label, frac, handoff, tuple(sc2.made)))
+            if kind is not None:
+                report(ctx, case, 0, sw, kind, detail[:600], handoff=handoff)
+
+
+def two_cache_cases():
+    out = []
+    for cls in ('LRI', 'LRU'):
+        other = [['a', 0], ['q', 5]]
+        # comparisons in both directions from two threads (each side may look at the other under its own lock)
+        out.append({'cls': cls, 'max_size': 2, 'on_miss': False, 'prefill': [['a', 0], ['q', 5]], 'other': other,
+                    'small': True, 'programs': [[['eq-other', other], ['set', 'c', 1]], [['other-eq', other]]]})
+        # and updates in both directions
+        out.append({'cls': cls, 'max_size': 3, 'on_miss': False, 'prefill': [['a', 1], ['b', 2]],
+                    'other': [['a', 7], ['q', 5]], 'small': True, 'cross': True,
+                    'programs': [[['update-from-other']], [['other-update-from-self']]]})
+    return out
+
+
+def explore_forked(ctx, case, label, npairs):
+    """The same kind of exploration inside a forked child process (caches built by the parent before the fork):
+    anything the cache re-creates lazily after a fork - its lock, say - is set up by racing threads there."""
+    import json as _json
+    import os as _os
+    st = ctx.stats
+    kind, detail, sc = judge(case, 0, [], st)
+    st.evaluations += 1
+    if sc is None or kind is not None:
+        if kind is not None:
+            report(ctx, case, 0, [], kind, detail)
+        return
+    N = sc.events + 80
+    case = dict(case, budget=40 * N + 5000)
+    r = ctx.rng('forked', label)
+    scheds = [[]] + [[(k, -1)] for k in range(1, N, max(1, N // 25))]
+    while len(scheds) < npairs:
+        k1 = r.randint(1, N - 1)
+        scheds.append([(k1, -1), (r.randint(k1 + 1, N), -1)])
+    pre = [build(case) for _ in scheds]
+    rfd, wfd = _os.pipe()
+    sys.stdout.flush()
+    sys.stderr.flush()
+    pid = _os.fork()
+    if pid == 0:
+        code = 1
+        try:
+            _os.close(rfd)
+            cst = common.Stats()
+            found = []
+            for sw, pb in zip(scheds, pre):
+                for first in (0, 1):
+                    if first == 1 and len(sw) != 2:
+                        continue
+                    kind, detail, sc2 = judge(case, first, sw, cst, prebuilt=pb if first == 0 else None)
+                    if kind is not None and not any(f[0] == kind for f in found):
+                        found.append((kind, detail[:800], first, sw))
+            out = {'found': found, 'schedules_run': cst.counters.get('schedules_run', 0),
+                   'monitor_evals': cst.monitor_evals, 'contention': cst.counters.get('lock_contention_events', 0),
+                   'inconclusive': {k: v for k, v in cst.counters.items() if k.startswith('inconclusive:')}}
+            with _os.fdopen(wfd, 'w') as f:
+                _json.dump(out, f)
+            code = 0
+        finally:
+            _os._exit(code)
+    _os.close(wfd)
+    with _os.fdopen(rfd) as f:
+        data = f.read()
+    _, status = _os.waitpid(pid, 0)
+    if _os.waitstatus_to_exitcode(status) != 0 or not data:
+        st.count('inconclusive:forked-child-failed')
+        return
+    out = _json.loads(data)
+    st.evaluations += out['schedules_run']
+    st.monitor_evals += out['monitor_evals']
+    st.count('schedules_run_in_forked_children', out['schedules_run'])
+    st.count('lock_contention_events', out['contention'])
+    for k, v in out['inconclusive'].items():
+        st.count(k, v)
+    for kind, detail, first, sw in out['found']:
+        report(ctx, case, first, sw, kind, '(in a forked child process) ' + detail, forked=True)
 
 
 def stress(ctx, r, nprograms):
@@ -468,6 +641,17 @@ def run(ctx):
         for j, case in enumerate(mine):
             ctx.stats.count('directed_programs')
             explore_all_pairs(ctx, case, 'd%d.%d' % (ctx.shard, j))
+        extra = two_cache_cases()
+        for j, case in enumerate(extra):
+            if j % ctx.nshards == ctx.shard % max(1, min(ctx.nshards, len(extra))):
+                ctx.stats.count('two_cache_programs')
+                explore_all_pairs(ctx, case, 'x%d.%d' % (ctx.shard, j))
+        if ctx.shard % 2 == 0:
+            explore_big_update(ctx, 'LRI' if ctx.shard % 4 == 0 else 'LRU', 'big%d' % ctx.shard)
+        else:
+            fcase = {'cls': 'LRI' if ctx.shard % 4 == 1 else 'LRU', 'max_size': 2, 'on_miss': False,
+                     'prefill': [['a', 0]], 'programs': [[['set', 'b', 1]], [['set', 'c', 2]]]}
+            explore_forked(ctx, fcase, 'fork%d' % ctx.shard, 400 if not ctx.thorough else 4000)
         for i in range(nprog):
             if ctx.out_of_time():
                 ctx.stats.notes.append('stopped after %d programs (time budget)' % i)
@@ -505,7 +689,8 @@ def replay(witness):
                         if kind:
                             return '%s (switch at event %d -> thread %d): %s' % (kind, k, tgt, detail[:300])
             return None
-        kind, detail, _ = judge(case, witness['first'], [tuple(s) for s in witness['switches']], st)
+        kind, detail, _ = judge(case, witness['first'], [tuple(s) for s in witness['switches']], st,
+                                handoff=bool(witness.get('handoff')))
         return '%s: %s' % (kind, detail[:300]) if kind else None
     finally:
         global _monitor
